@@ -153,7 +153,8 @@ def gen_hist(tier, seed):
         for pre in (["add:s_rel", "disable", "change", "enable"], ["add:s_abs", "add:m_cov_rel", "disable", "change", "enable"], ["add:s_rel_c", "read:cov", "disable", "change", "read:cov", "enable"], ["add:m_cor_rel", "read:err", "change"]):
             for ln in range(0, 3 if tier == "thorough" else 2):
                 for seq in itertools.product(OPS, repeat=ln):
-                    if any(o.startswith("add:") and o in pre for o in seq):
+                    adds_ = [o for o in seq if o.startswith("add:")]
+                    if any(o in pre for o in adds_) or len(set(adds_)) != len(adds_):          # (a source name can be registered once)
                         continue
                     yield {"kind": kind, "history": pre + list(seq)}
 
